@@ -564,7 +564,7 @@ class LogRule(object):
         f_del = np.vstack([np.ravel(r) for r in sequence])
         one = np.ones(original_shape)
         h = np.vstack([np.ravel(one * step) for step in steps])
-        _assert(f_del.size == h.size, 'fun did not return data of correct '
+        _assert(0 < f_del.size == h.size, 'fun did not return data of correct '
                 'size (it must be vectorized)')
         return f_del, h, original_shape
 
